@@ -193,6 +193,45 @@ def wide_scenarios(rng, n):
                             {"tables": "syn", "ed": 4, "template": t, "nsub": nsub, "comp": comp, "kind": "own"}))
     return out
 
+def bitmap_api_scenarios(rng, n):
+    """datasets with a data present bit-map built through the API: template, subsets, the bits of the bit-map set,
+    the subset expanded again (the marker operators take the encoding — and a copy of the value — of the elements
+    flagged present), own values given to the markers, then the decode/encode chain.  Tied since the bit-map head of
+    bufr_apply_tables2node is modelled on the dataset-building side as well (createDatasubsetB/expandDatasubsetB)."""
+    from gen import bitmap as gbm
+    out = []
+    B, D = P["cur"]
+    pool = [d for d in gbm.ELEMENTS if d in B]
+    for i in range(n):
+        k = rng.choice([1, 2, 3, 4])
+        els = [rng.choice(pool) for _ in range(k)]
+        op, marker, info = rng.choice(gbm.OPS)
+        info = [d for d in info if d in B][:rng.choice([0, 1, 2])]
+        nsub = rng.choice([1, 2, 2, 3])
+        comp = rng.choice([0, 1])
+        same = rng.random() < 0.6
+        bits0 = [rng.choice([0, 0, 1]) for _ in range(k)]
+        nmark = rng.choice([bits0.count(0), bits0.count(0), k, max(0, bits0.count(0) - 1)])
+        t = els + [op, 236000, 101000 + k, 31031] + info + ([101000 + nmark, marker] if nmark else [])
+        ls = ["T.use cur", "tm.new 4 " + " ".join("%06d" % d for d in t)]
+        first_bit = k + 3
+        first_marker = k + 3 + k + len(info) + 1
+        for s_ in range(nsub):
+            bits = bits0 if same else [rng.choice([0, 0, 1]) for _ in range(k)]
+            ls += ["ss.new", "ss.expand %d" % s_, "ss.fill %d %d %d" % (s_, rng.randrange(1, 2 ** 31), rng.choice([0, 1, 1]))]
+            for j, b in enumerate(bits):
+                ls.append("ss.seti %d %d %d" % (s_, first_bit + j, b))
+            ls.append("ss.expand %d" % s_)
+            for j in range(nmark):
+                if rng.random() < 0.8:
+                    ls.append("ss.setraw %d %d %d" % (s_, first_marker + j, rng.randrange(0, 64)))
+        for s_ in range(nsub):
+            ls += ["ss.list %d" % s_, "ss.vals %d" % s_]
+        ls += ["ds.invalid", "ds.encode %d" % comp]
+        out.append(Scenario("bmapi-%d" % i, ls + _tail(nsub, comp),
+                            {"tables": "cur", "ed": 4, "template": t, "nsub": nsub, "comp": comp, "kind": "own-bitmap"}))
+    return out
+
 def scenarios(rng, tier, runner):
     out = msg_scenarios(rng, tier, runner) + sample_scenarios(rng, tier)
     n = 450 if tier == "quick" else 8000
@@ -245,6 +284,7 @@ def scenarios(rng, tier, runner):
         if i % 3 == 0 or forced:
             stage1.append(Scenario("b-%d" % i, ls, dict(meta)))
     out += wide_scenarios(rng, 40 if tier == "quick" else 600)
+    out += bitmap_api_scenarios(rng, 60 if tier == "quick" else 1500)
     # foreign messages: reference re-encoding of what the implementation built
     c1 = run_all(runner, stage1, "impl")
     stage2, keep = [], []
@@ -317,7 +357,7 @@ def oracle(scn, outs):
     if len(outs) != len(scn.lines):
         return None
     lines = scn.lines
-    own = scn.meta.get("kind") in ("own", "msg-own")     # msg-foreign and msg-sample: m is somebody else's message
+    own = scn.meta.get("kind") in ("own", "own-bitmap", "msg-own")     # msg-foreign and msg-sample: m is somebody else's message
     whole = scn.meta.get("kind", "").startswith("msg-")
     decs = [i for i, l in enumerate(lines) if l.startswith("ds.decode")]
     if not decs:
